@@ -6,7 +6,10 @@ import sqlgen as G
 TYPES = {"int": ("int", lambda r: r.choice([None, 0, 7, -12, 2147483647, -2147483648])),
          "bigint": ("bigint", lambda r: r.choice([None, 0, 9000000000, -1])),
          "bool": ("boolean", lambda r: r.choice([None, True, False])),
-         "varchar": ("varchar", lambda r: r.choice([None, "", "a", "a,b", 'say "hi"', "two\nlines", "x|y", "';", " lead", "NULL"]))}
+         "varchar": ("varchar", lambda r: r.choice([None, "", "a", "a,b", 'say "hi"', "two\nlines", "x|y", "';", " lead", "NULL",
+                                                         # the default quote character inside fields that another QUOTE / DELIMITER
+                                                         # option forces to be quoted, and the other way round
+                                                         'say "hi", then', "it's \"q\"", 'a"~b;c', "~tilde~", '"']))}
 OPTS = [("", 44, 34, False), ("( DELIMITER '|' )", 124, 34, False), ("( HEADER )", 44, 34, True),
         ("( DELIMITER ';', HEADER )", 59, 34, True), ("( QUOTE '''' )", 44, 39, False)]
 
